@@ -396,7 +396,7 @@ func (w *c05Worker) checkViews(views []c05View, qs map[int]storage.Querier, maxT
 					}
 				case isDev && c05Eq(gs, implT):
 					fails = append(fails, &c05Fail{"violation", "seek-bypasses-isolation", fmt.Sprintf("%s: reader %d series %s: Seek(%d)+Next returns %v; property demands %v (Next alone returns %v): stopIterator.Seek walks past stopAfter", where, r, s, st, gs, refT, got)})
-				case v.H2[s] && c05Eq(gs, implT):
+				case v.H2[s] && c05Eq(gs, c05From(impl, st)):
 					// same deficiency as the Next read above (already reported as h2-hidden-behind-open)
 				default:
 					sig := "seek-missing-committed"
@@ -607,6 +607,7 @@ func TestVerifC05Replay(t *testing.T) {
 	var mu sync.Mutex
 	var wg sync.WaitGroup
 	steps, h2seen, seekseen, infra := 0, 0, 0, ""
+	reported := map[string]bool{}
 	for wi := 0; wi < nw; wi++ {
 		wg.Add(1)
 		go func(wi int) {
@@ -641,6 +642,12 @@ func TestVerifC05Replay(t *testing.T) {
 						if f.sig == "seek-bypasses-isolation" {
 							seekseen++
 						}
+						// verifh keeps at most 50 violation records: report each known-finding signature once
+						// (reproductions are counted in the stats) so that a new kind of violation is never crowded out
+						if (f.sig == "h2-hidden-behind-open" || f.sig == "seek-bypasses-isolation") && reported[f.sig] {
+							continue
+						}
+						reported[f.sig] = true
 						verifh.Violation(f.sig, fmt.Sprintf("behaviour %d: %s", bi, f.msg), map[string]any{"behaviour": behs[bi], "seed": verifh.Seed(), "worker": wi})
 					}
 				}
